@@ -226,7 +226,7 @@ class C15(Prop):
                 "_soft_deadline": 95 if tier == "quick" else 1500}
 
     def gen(self, seed):
-        case = workload.gen_case("C15", seed, limits=(1, 2, 3, 5), beta_forms=("int", "float", "vector_const", "vector_rand"),
+        case = workload.gen_case("C15", seed, limits=(1, 2, 3, 5), beta_forms=("int", "float", "np.longdouble", "np.float32", "np.int32", "vector_const", "vector_rand"),
                                  lambda_values=(0.11, 0.5, 2.0), T=(None, 100), knob_p=0.2)
         case["pool"]["prange"] = "identity"
         r = core.rng(seed, "C15", "offset")
